@@ -176,6 +176,15 @@ Definition oracle_ops (inp obs : list N) : bool :=
       | Some q =>
           let '(x0, y0, nc, nr) := q in
           let old := oc_data c in
+          if oc_zst c then
+            (* zero-sized elements: the call returns exactly when its arguments are valid *)
+            let valid := match oc_op c with
+                         | OSort var line _ | OSortFuse var line _ _ _ =>
+                             (line <? N.of_nat (if sort_is_col var then nc else nr))%N
+                         | o => match spec_map nc nr o with Some _ => true | None => false end
+                         end in
+            list_N_eqb obs [if valid then 1%N else 0%N; N.of_nat (length old)]
+          else
           match oc_op c with
           | OSort var line sigma =>
               let bound := if sort_is_col var then nc else nr in
